@@ -89,3 +89,13 @@ package geom
 //@ func (*twkbWriter).writeGeometry
 //@   trusted
 //@   modifies w
+
+//@ func verifTWKBHeadersRoundTrip
+//@   requires 4 <= kind && kind <= 7 && -8 <= precXY && precXY <= 7 && 0 <= precZ && precZ <= 7 && 0 <= precM && precM <= 7
+//@   ensures result10 == nil
+//@   ensures result0 == kind
+//@   ensures result1 == precXY
+//@   ensures result2 == hasZ && result3 == hasM
+//@   ensures (hasZ ==> result4 == precZ) && (hasM ==> result5 == precM)
+//@   ensures result6 == hasIDs && !result7 && !result8
+//@   ensures HasZ(result9) == hasZ && HasM(result9) == hasM
